@@ -97,6 +97,7 @@ func runCheck(id, tier string, o runOpts) int {
 		p.BuildSSA()
 	}
 	w := an.NewWorld(p)
+	w.Vocab = an.LoadVocab(filepath.Join(o.verif, "vocab.json"))
 	rep := an.NewReport(id)
 	ctx := &props.Ctx{P: p, W: w, R: rep, Tier: tier}
 	func() {
@@ -111,6 +112,9 @@ func runCheck(id, tier string, o runOpts) int {
 		prop.Run(ctx)
 	}()
 
+	for _, rn := range w.Renamed {
+		rep.Note("renamed local recognised: %s", rn)
+	}
 	known, err := loadKnown(o.verif)
 	if err != nil {
 		fmt.Fprintln(os.Stderr, "zrcheck:", err)
